@@ -68,11 +68,18 @@ def specs(tier):
         ("perm3", "comb", "from_path"), ("batch4", "bal", "from_path"),
         ("comps4", "bal", "from_path"), ("outer4", "bal", "from_path"),
     ]
+    noninitial = [
+        ("perm3", "comb", "sorted-contracted"),
+        ("perm3", "comb", "sliced-contracted"),
+        ("hyper4", "comb", "sliced-contracted"),
+        ("chain4", "bal", "sorted-contracted"),
+        ("ring5", "bal", "annealed"),
+    ]
     big = [("grid6", "mix", "from_path"), ("tree7", "mix", "from_path"),
            ("tree7", "bal", "optimizer")]
     if tier == "quick":
-        return ([(s, 2, "full") for s in quick + big]
-                + [(s, 3, "core") for s in deep])
+        return ([(s, 2, "full") for s in quick + big + noninitial]
+                + [(s, 3, "core") for s in deep + noninitial[:3]])
     out = []
     for name in TH.START_NETS:
         n = len(TH.parse_net(name)[0])
@@ -85,6 +92,8 @@ def specs(tier):
         out.append((s, 3, "full"))
     for s in deep[:6]:
         out.append((s, 4, "mini"))
+    for s in noninitial:
+        out.append((s, 3, "full"))
     return out
 
 
